@@ -108,7 +108,7 @@ Definition bad_draw (store : list N) (d : N) : bool := (d =? 0) || mem d store.
 Definition CAUSE_ACCEPTED : N := 1.
 Definition CAUSE_REJECTED : N := 64.
 Definition CAUSE_NO_ASSOC : N := 72.
-Definition CAUSE_NO_RESOURCES : N := 73.
+Definition CAUSE_NO_RESOURCES : N := 75.
 
 (* a Create PDR as far as the F-TEID is concerned: parse outcome, CHOOSE flag, and the TEID / IPv4
    address of a CP-provided F-TEID *)
@@ -116,29 +116,33 @@ Record cpdr := CPdr { cp_id : N; cp_parse_ok : bool; cp_choose : bool; cp_teid :
 (* the pdr handed to the datapath: fseID, pdrID, tunnelTEID, tunnelIP4Dst, UPAllocateFteid *)
 Record dpdr := DPdr { d_fseid : N; d_id : N; d_teid : N; d_ip : N; d_choose : bool }.
 
-(* the Create PDR loop: parsePDR, then Allocate for CHOOSE PDRs.  Left = refusal cause *)
-Fixpoint build_pdrs (lseid access : N) (g : gen) (ps : list cpdr) : gen * (N + list dpdr) :=
+(* the Create PDR loop: parsePDR, then Allocate for CHOOSE PDRs, then session.CreatePDR.
+   Result: generator, the PDRs added to the session so far, and the refusal cause if the loop
+   stopped early *)
+Fixpoint build_pdrs (lseid access : N) (g : gen) (ps : list cpdr) : gen * list dpdr * option N :=
   match ps with
-  | [] => (g, inr [])
+  | [] => (g, [], None)
   | p :: r =>
-    if negb (cp_parse_ok p) then (g, inl CAUSE_REJECTED)
-    else
-      let '(g1, x) :=
-        if cp_choose p then
-          match allocate g with
-          | AOk id g' => (g', inr (DPdr lseid (cp_id p) id access true))
-          | AErr g' => (g', inl CAUSE_NO_RESOURCES)
-          | AFuel => (g, inl 0)
-          end
-        else if cp_teid p =? 0 then (g, inr (DPdr lseid (cp_id p) 0 0 false))
-        else (g, inr (DPdr lseid (cp_id p) (cp_teid p) (cp_ip p) false)) in
-      match x with
-      | inl c => (g1, inl c)
-      | inr d =>
-        let '(g2, y) := build_pdrs lseid access g1 r in
-        (g2, match y with inl c => inl c | inr ds => inr (d :: ds) end)
+    if negb (cp_parse_ok p) then (g, [], Some CAUSE_REJECTED)
+    else if cp_choose p then
+      match allocate g with
+      | AOk id g' =>
+        let '(g2, ds, c) := build_pdrs lseid access g' r in
+        (g2, DPdr lseid (cp_id p) id access true :: ds, c)
+      | AErr g' => (g', [], Some CAUSE_NO_RESOURCES)
+      | AFuel => (g, [], Some 0)
       end
+    else
+      let d := if cp_teid p =? 0 then DPdr lseid (cp_id p) 0 0 false
+               else DPdr lseid (cp_id p) (cp_teid p) (cp_ip p) false in
+      let '(g2, ds, c) := build_pdrs lseid access g r in (g2, d :: ds, c)
   end.
+
+(* the TEIDs the UPF chose for a list of PDRs *)
+Definition chosen (ds : list dpdr) : list N := map d_teid (filter d_choose ds).
+
+(* releaseAllocatedFTEIDs: FreeID(tunnelTEID) for every pdr with UPAllocateFteid, in order *)
+Definition release (ts : list N) (g : gen) : gen := fold_left (fun g t => free_id t g) ts g.
 
 (* addPdrInfo: one Created PDR (pdr id, TEID, IPv4) per PDR with UPAllocateFteid *)
 Definition created_of (ds : list dpdr) : list (N * N * N) :=
@@ -148,56 +152,54 @@ Inductive eres :=
 | EAccepted (lseid : N) (created : list (N * N * N)) (batch : list dpdr)
 | ERefused (cause : N) (batch : option (list dpdr)).   (* batch = what reached the datapath, if anything *)
 
-(* one association's view: its session store (local SEIDs) and the position in its draw stream *)
-Record conn := Conn { store : list N; drawn : nat }.
-
+(* [st] = local SEIDs stored on the association, [i] = position in its draw stream.
+   Every rejection after NewPFCPSession rolls back: the TEIDs chosen so far are released. *)
 Definition establish (retries : nat) (access : N) (draws : stream) (assoc_ok dp_ok : bool)
-           (ps : list cpdr) (c : conn) (g : gen) : eres * conn * gen :=
-  if negb assoc_ok then (ERefused CAUSE_NO_ASSOC None, c, g)
+           (ps : list cpdr) (st : list N) (i : nat) (g : gen) : eres * nat * gen :=
+  if negb assoc_ok then (ERefused CAUSE_NO_ASSOC None, i, g)
   else
-    match new_seid retries draws (drawn c) (store c) with
-    | (None, i) => (ERefused CAUSE_NO_RESOURCES None, Conn (store c) i, g)
-    | (Some l, i) =>
+    match new_seid retries draws i st with
+    | (None, j) => (ERefused CAUSE_NO_RESOURCES None, j, g)
+    | (Some l, j) =>
       match build_pdrs l access g ps with
-      | (g', inl cause) => (ERefused cause None, Conn (store c) i, g')
-      | (g', inr ds) =>
-        if dp_ok then (EAccepted l (created_of ds) ds, Conn (l :: store c) i, g')
-        else (ERefused CAUSE_REJECTED (Some ds), Conn (store c) i, g')
+      | (g', ds, Some cause) => (ERefused cause None, j, release (chosen ds) g')
+      | (g', ds, None) =>
+        if dp_ok then (EAccepted l (created_of ds) ds, j, g')
+        else (ERefused CAUSE_REJECTED (Some ds), j, release (chosen ds) g')
       end
     end.
 
 (* histories over several associations sharing one generator *)
 Inductive ev :=
 | EvEst (k : nat) (assoc_ok dp_ok : bool) (ps : list cpdr)
-| EvDel (k : nat) (seid : N) (freed : list N).   (* session deletion; [freed] = TEIDs the
-     implementation released (oracle input: none today, FreeID has no caller) *)
+| EvDel (k : nat) (seid : N).          (* Session Deletion Request for local SEID [seid] *)
 
-Fixpoint set_nth {A} (n : nat) (x : A) (l : list A) : list A :=
-  match l, n with
-  | [], _ => []
-  | _ :: r, O => x :: r
-  | y :: r, S m => y :: set_nth m x r
-  end.
+(* a live session: association, local SEID, the TEIDs chosen for it *)
+Record sess := Sess { s_conn : nat; s_seid : N; s_teids : list N }.
 
-Record world := World { w_conns : list conn; w_gen : gen }.
+Record world := World { w_sess : list sess; w_drawn : nat -> nat; w_gen : gen }.
+
+Definition store_of (k : nat) (ss : list sess) : list N :=
+  map s_seid (filter (fun s => Nat.eqb (s_conn s) k) ss).
+Definition is_sess (k : nat) (seid : N) (s : sess) : bool := Nat.eqb (s_conn s) k && (s_seid s =? seid).
+Definition all_teids (ss : list sess) : list N := concat (map s_teids ss).
 
 Definition ev_step (retries : nat) (access : N) (draws : nat -> stream) (w : world) (e : ev)
   : world * option eres :=
   match e with
   | EvEst k assoc_ok dp_ok ps =>
-    match nth_error (w_conns w) k with
-    | None => (w, None)
-    | Some c =>
-      let '(r, c', g') := establish retries access (draws k) assoc_ok dp_ok ps c (w_gen w) in
-      (World (set_nth k c' (w_conns w)) g', Some r)
-    end
-  | EvDel k seid freed =>
-    match nth_error (w_conns w) k with
-    | None => (w, None)
-    | Some c =>
-      (World (set_nth k (Conn (del seid (store c)) (drawn c)) (w_conns w))
-             (fold_left (fun g id => free_id id g) freed (w_gen w)), None)
-    end
+    let '(r, j, g') := establish retries access (draws k) assoc_ok dp_ok ps
+                                 (store_of k (w_sess w)) (w_drawn w k) (w_gen w) in
+    let dr := fun k' => if Nat.eqb k' k then j else w_drawn w k' in
+    (World (match r with
+            | EAccepted l _ batch => Sess k l (chosen batch) :: w_sess w
+            | ERefused _ _ => w_sess w
+            end) dr g', Some r)
+  | EvDel k seid =>
+    (* handleSessionDeletionRequest: unknown SEID -> rejected, nothing changes; otherwise the
+       TEIDs of the session are released and the session is removed *)
+    (World (filter (fun s => negb (is_sess k seid s)) (w_sess w)) (w_drawn w)
+           (release (all_teids (filter (is_sess k seid) (w_sess w))) (w_gen w)), None)
   end.
 
 Fixpoint ev_run (retries : nat) (access : N) (draws : nat -> stream) (w : world) (es : list ev)
